@@ -39,6 +39,7 @@ Holds(o) ==
   /\ AxZero(o.sp, o.x) /\ Add(o.zeros, o.x) = o.x
   /\ AxInnerPosDef(o.sp, o.x)
   /\ Len(o.basis) = o.size
+  /\ o.closed                                                   \* every result lies in the space of the operands (container type and space)
   \* equality of spaces
   /\ \A j \in DOMAIN o.eqs : o.eqs[j].eq = SameSpace(o.sp, o.eqs[j].sp) /\ o.eqs[j].eq_rev = o.eqs[j].eq /\ o.eqs[j].ne = ~o.eqs[j].eq   \* != is the negation of ==
 
